@@ -55,6 +55,17 @@ class Summary:
         self.unresolved = []
 
 
+def _list_valued(e):
+    """an expression that is certainly a list: a display, a comprehension, list(...)/sorted(...), a list repeated or concatenated"""
+    if isinstance(e, (ast.List, ast.ListComp)):
+        return True
+    if isinstance(e, ast.Call) and isinstance(e.func, ast.Name) and e.func.id in ("list", "sorted"):
+        return True
+    if isinstance(e, ast.BinOp) and isinstance(e.op, (ast.Mult, ast.Add)):
+        return _list_valued(e.left) or _list_valued(e.right)
+    return False
+
+
 class Effects:
     def __init__(self, prog, cut=()):
         """cut: callee keys through which effects are NOT propagated (call edges taken only when an optional argument
@@ -250,7 +261,7 @@ class Effects:
                         o = env.get(t.id, set())
                         # x += ... mutates in place when x aliases a list; numbers/strings rebind (cannot tell: only
                         # report when the alias is a parameter/field/global AND the right side is a list display)
-                        if isinstance(st.value, (ast.List, ast.ListComp)) and any(
+                        if _list_valued(st.value) and any(
                                 not isinstance(x, tuple) and x != "fresh" for x in o):
                             record_mut(o, f.loc(st))
                 elif isinstance(st, ast.Return):
